@@ -36,6 +36,33 @@ UTC = timezone.utc
 # minutes: offsets for which an IANA zone with that constant offset exists (every whole hour -12..+14 and six others); the library
 # finds them through its table of equivalent zones, so a corrupted entry of that table shows as a wrong instant
 MATCH = [h * 60 for h in range(-12, 15)] + [330, 525, -570, 270, 390, 570]
+_ZONE_CACHE = {}
+
+
+def named_after_a_zone_of_todays_offset(off_minutes, wall, written_tzid):
+    """RC-AX from what is observable: a value whose tzinfo has no zone id was written with the TZID of an IANA zone that has the
+    value's offset *today* (the library's rule) but had another offset at the value's own date - or with an unresolvable id
+    ("UTC+01:23") because no zone has that offset today.  A TZID whose zone does not even have the offset today is not this
+    finding (the table of equivalent zones is wrong) and is reported in full.  All offsets come from the tz database."""
+    import zoneinfo
+    off = timedelta(minutes=off_minutes)
+    today = [datetime(2022, 1, 15), datetime(2022, 7, 15), datetime(2025, 1, 15), datetime(2025, 7, 15)]
+    try:
+        tz = zoneinfo.ZoneInfo(written_tzid) if written_tzid else None
+    except Exception:  # noqa: BLE001
+        tz = None
+    if tz is None:
+        # an unresolvable id: the finding for the offsets the library has no zone for (MATCH lists the ones it has: if one of those
+        # stops resolving, the table of equivalent zones lost an entry - reported in full)
+        return off_minutes not in MATCH
+    naive = datetime(*(list(wall[:6]) + [0] * (6 - len(wall[:6]))))
+    try:
+        then = (naive - off).replace(tzinfo=UTC).astimezone(tz).utcoffset()
+    except (OverflowError, ValueError):
+        then = None
+    return any(d.replace(tzinfo=tz).utcoffset() == off for d in today) and then != off
+
+
 NOMATCH = [83, -83, 1, 90, 345]                         # no such zone in the library's table (RC-AX)
 
 
@@ -281,7 +308,8 @@ def judge(case):
                     if isinstance(d_, datetime) and d_.utcoffset() is not None and d_.astimezone(UTC).replace(tzinfo=None) == want[1]:
                         got = want
                     else:
-                        where = "@offset-without-iana-zone" if kind == "fixed" and (spec["off"] not in MATCH or spec["v"][0] < 1980) else ""
+                        written = lines[j][0].get("TZID", [None])[0] if j < len(lines) else None
+                        where = "@offset-without-iana-zone" if kind == "fixed" and named_after_a_zone_of_todays_offset(spec["off"], spec["v"], written) else ""
                         fails.append(Failure("C02.values" + where, f"aware-value-without-zone-id-not-read-back-as-the-same-instant/{kind}{where}",
                                              f"{nm}: got {d_!r} want instant {want[1]!r}Z raw-lines={[l for l in blk if l.upper().startswith(nm)][:2]!r}"[:500]))
                         got = want
